@@ -57,6 +57,21 @@ fn expect_string_through_rule(text: &str, want: &str) -> Verdict {
     }
 }
 
+/// a literal ends where its closing quote stands, whatever precedes that quote and whatever follows in the text
+fn expect_string_among_others(text: &str, want: &str) -> Verdict {
+    let full = format!("[{text}, \"z\\\\\", {text}] == {text} // \"not a string\"");
+    let lit = |s: &str| Expr::Value(Value::String(s.to_string()));
+    let expected = Expr::eq(Expr::Vec(vec![lit(want), lit("z\\"), lit(want)]), lit(want));
+    match parse_caught(&full)? {
+        Ok(t) if same_expr(&t, &expected) => Ok(()),
+        Ok(t) => Err(Issue::new(
+            "literal:string:among-others",
+            format!("string literal {text:?} next to other literals: {full:?} denotes {} instead of {}", show_expr(&t), show_expr(&expected)),
+        )),
+        Err(e) => Err(Issue::new("literal:string:among-others", format!("string literal {text:?} next to other literals: {full:?} is rejected: {e}"))),
+    }
+}
+
 fn expect_rejected(kind: &str, text: &str) -> Verdict {
     match parse_caught(text)? {
         Err(_) => Ok(()),
@@ -333,7 +348,7 @@ fn word_family() -> Vec<String> {
     for w in ["int", "inty", "in", "i", "i5", "i5x", "f1e", "f1e5", "f1e5x", "d1x", "truex", "none", "nonex", "i+5", "i-5", "i+", "f+1", "f1.", "f1.e5", "0x", "0xg", "0b2", "0o9", "0x1g",
         // identifiers that look like spellings of non-finite or grouped numerals (they are identifiers)
         "finf", "fNaN", "fnan", "finfinity", "f-inf", "f+NaN", "f-NaN", "dNaN", "dinf", "iinf", "inf", "NaN", "i1_000", "i1_", "i_1", "f1_", "f1_0",
-        "d2_5", "d_", "i1_000_000", "f1_0e5", "0x1_0", "i0x10", "f1f", "d1d", "f1e+", "i\u{ff11}", "i\u{661}", "f1.5f", "d1.5.5", "i1i1",
+        "d2_5", "d_", "i1_000_000", "f1_0e5", "0x1_0", "i0x10", "f1f", "d1d", "f1e+", "i\u{ff11}", "i\u{661}", "f1.5f", "d1.5.5", "i1i1", "d1e5", "d1e-5", "d1E5", "i1e5", "d.5e3", "d5e", "i12_345_678", "i0_000", "i1_0000",
     ] {
         out.insert(w.to_string());
     }
@@ -623,6 +638,7 @@ pub fn run(ctx: &Ctx) {
                 acc.case("string", nt, || text.clone());
             }
             expect_literal("string", &text, &Value::String(s.clone()))?;
+            expect_string_among_others(&text, &s)?;
             expect_string_through_rule(&text, &s)
         },
         |bytes| {
